@@ -47,8 +47,10 @@ def strategy(tier):
     cyc = st.tuples(st.sampled_from(["none", "none", "none", "blackout", "rferr", "dark"]), st.sampled_from(["reset", "reset", "setinfo"]), t,
                     st.one_of(st.just(0), st.just(0), st.integers(1, 400))).map(list)
     jitter = st.one_of(st.just([]), st.lists(st.sampled_from([0.0, 0.0, 0.01, 0.03, 0.05]), min_size=1, max_size=7))
-    smap = st.dictionaries(st.sampled_from(["RUNNING_SPA_DISCONNECTED", "CLIENT_FACADE_TEARDOWN", "CONNECTION_STARTED", "LOCATING_FINISHED"]),
-                           st.sampled_from([0.02, 0.06]), max_size=2)
+    # (1.0 s: longer than the sequence pump's polling interval plus a whole discovery - what the pump could do behind a suspended
+    # handler on the reset / exit path)
+    smap = st.dictionaries(st.sampled_from(["RUNNING_SPA_DISCONNECTED", "CLIENT_FACADE_TEARDOWN", "CONNECTION_STARTED", "LOCATING_FINISHED", "SPA_MAN_EXIT"]),
+                           st.sampled_from([0.02, 0.06, 1.0]), max_size=2)
     # a connection attempt that ends with an exception of its own (here: the client's handler fails while it is told about a
     # handshake step) is an abandoned connection as well
     rmap = st.one_of(st.just({}), st.just({}), st.just({}), st.dictionaries(
@@ -64,9 +66,17 @@ _STEPS = {}
 
 
 def enumerated(tier):
-    # in both tiers: a reset / set-spa-info at every loop step around the creation of the connection's endpoint, after which the spa
+    # in both tiers: a reset / set-spa-info at every loop step around the creation of the connection's endpoint (around step 100 when the harness polls every 10 ms while it waits for the hook), after which the spa
     # goes dark - the abandoned attempt's handshake gets no answer and ends by exhausting its retries, not by an exception
-    dark = [{"cycles": [["dark", k, 0.0, step]], "exit_at": 5.0, "jitter": [], "suspend_map": {}} for step in range(96, 122) for k in ("reset", "setinfo")]
+    dark = [{"cycles": [["dark", k, 0.0, step]], "exit_at": 5.0, "jitter": [], "suspend_map": {}} for step in range(92, 124) for k in ("reset", "setinfo")]
+    # leaving the context (connected / in an error state) while the client's handler for an exit-path event suspends for a second
+    for ev_ in ("RUNNING_SPA_DISCONNECTED", "CLIENT_FACADE_TEARDOWN", "SPA_MAN_EXIT"):
+        dark.append({"cycles": [], "exit_at": 8.0, "jitter": [], "suspend_map": {ev_: 1.0}})
+        dark.append({"cycles": [["blackout", "reset", 0.0, 0]], "exit_at": 8.0, "jitter": [], "suspend_map": {ev_: 1.0}})
+    # the timing table is re-selected (which wakes the task manager's tidy pass) at each loop step around the start of the connection
+    # attempt; a reset and the exit follow
+    for step in range(28, 56):
+        dark.append({"cycles": [["none", "reset", 6.0, 0]], "exit_at": 3.0, "jitter": [], "suspend_map": {}, "kick": [step]})
     if tier != "thorough":
         return len(dark), lambda i: dark[i]
     n = 420
@@ -139,6 +149,9 @@ def run_case(case) -> Result:
         sc.man = man
         exited = False
         await man.__aenter__()
+        for st_ in case.get("kick", []):
+            from geckolib.config import set_config_mode
+            W.loop.step_hooks[W.loop.steps + int(st_)] = (lambda: set_config_mode(False))
         try:
             t_enter = W.clock.t
             seen_ready = 0
